@@ -51,6 +51,7 @@ type cfg struct {
 	legacy  bool
 	enable  string
 	disable string
+	debug   string // the diagnostic parameter `debug` names a group whose matching is traced; it selects nothing
 }
 
 func validSrc(gs []group) string {
@@ -237,7 +238,8 @@ func Run(tier string, seed int64, outDir string) *common.Meta {
 		var pats []pat
 		fileNo := 0
 		if filterCase {
-			c = cfg{failOn: "", legacy: false, enable: enables[ci/len(disables)], disable: disables[ci%len(disables)]}
+			c = cfg{failOn: "", legacy: false, enable: enables[ci/len(disables)], disable: disables[ci%len(disables)],
+				debug: []string{"", "gA", "gC", "gE", "gB", "nosuch", "gH"}[ci%7]}
 			np = 0
 			pats = append(pats, pat{text: filepath.Join(dir, "all.go"), files: []file{{name: "all.go", kind: "valid", gs: pool}}})
 		}
@@ -296,6 +298,7 @@ func Run(tier string, seed int64, outDir string) *common.Meta {
 		rg.Params["failOnError"].Value = c.legacy
 		rg.Params["enable"].Value = c.enable
 		rg.Params["disable"].Value = c.disable
+		rg.Params["debug"].Value = c.debug
 		var logBuf bytes.Buffer
 		log.SetOutput(&logBuf)
 		ctx := linter.NewContext(tgt.fset, types.SizesFor("gc", runtime.GOARCH))
@@ -334,7 +337,7 @@ func Run(tier string, seed int64, outDir string) *common.Meta {
 		}
 		classCount[obsClass]++
 		// --- oracle: the property's sentences ---
-		desc := fmt.Sprintf("rules=%q failOn=%q failOnError=%v enable=%q disable=%q files=%v", rules, c.failOn, c.legacy, c.enable, c.disable, describe(pats))
+		desc := fmt.Sprintf("rules=%q failOn=%q failOnError=%v enable=%q disable=%q debug=%q files=%v", rules, c.failOn, c.legacy, c.enable, c.disable, c.debug, describe(pats))
 		eff := c.failOn
 		if eff == "" && c.legacy {
 			eff = "all"
